@@ -493,6 +493,146 @@ def w_misc(task: Any) -> dict:
 # ---------------------------------------------------------------------------------------------
 
 
+# ---------------------------------------------------------------------------------------------
+# call histories: the helpers are documented as functions of their arguments, so the answer to a call must not depend on
+# what was called before in the same process (conversion caches, defaults remembered, caller buffers kept or changed)
+
+def hist_alphabet(tier: str) -> list:
+    """Calls as JSON-able tuples (function tag, args...). Strings come in groups that a cache key could confuse: the same
+    text with other defaults, other case, surrounding blanks, underscores, suffixes; valid and invalid ones."""
+    strs = ["0x10", "0X10", " 0x10", "0x1_0", "0x10u", "16", "016", "0b101", "0o17", "1__0", "four", "0xg", "", "-1", "10ul", "0b2"]
+    if tier != "quick":
+        strs += ["0x_1", "1_", "0x", "7", " 7 ", "0B1", "1e3", "0xffffffffffffffffff", "٣"]
+    calls: list = []
+    for t in strs:
+        for d in (None, 0, 7):
+            calls.append(("vti", t, d))
+        calls.append(("vtb", t))
+        calls.append(("pat", t))
+    calls += [("vti_b", "0010"), ("vti_b", "ff"), ("vti_i", 5), ("vbool", "true"), ("vbool", "F"), ("vbool", "0"), ("vbool", "x"),
+              ("hex", "0x0102", 2), ("hex", "0102", 4), ("hex", None, 3), ("hex", "zz", 2)]
+    for n, a in ((5, 4), (8, 4), (3, 16)):
+        for kind in ("bytes", "bytearray"):
+            calls.append(("alb", kind, n, a, 0x00))
+            calls.append(("alb", kind, n, a, 0xFF))
+            calls.append(("ext", kind, n, a + n, 0xA5))
+    calls += [("align", 5, 4), ("align", 8, 4), ("cnt", 255, True), ("cnt", 256, True), ("cnt", 65536, False),
+              ("rng", 3, 0, 4), ("rng", 5, 0, 4), ("rev", 0b0011, 4), ("rev", 0b0011, 10), ("sw32", "01020304"), ("chg", "01020304", 2)]
+    return calls
+
+
+_HIST_KEEP: dict = {}
+_HIST_REFS: dict = {}
+
+
+def hist_call(c: tuple):
+    """Execute one call of the alphabet on the real helpers; returns a JSON-able observation (value or exception class)."""
+    from spsdk.exceptions import SPSDKError
+    from spsdk.utils import misc
+
+    k = c[0]
+    try:
+        if k == "vti":
+            r = misc.value_to_int(c[1]) if c[2] is None else misc.value_to_int(c[1], c[2])
+        elif k == "vti_b":
+            r = misc.value_to_int(bytes.fromhex(c[1]))
+        elif k == "vti_i":
+            r = misc.value_to_int(c[1])
+        elif k == "vtb":
+            r = misc.value_to_bytes(c[1]).hex()
+        elif k == "pat":
+            r = misc.BinaryPattern(c[1]).get_block(6).hex()
+        elif k == "vbool":
+            r = misc.value_to_bool(c[1])
+        elif k == "hex":
+            r = misc.load_hex_string(c[1], c[2]).hex()   # None -> random bytes: only the length is an observation
+            if c[1] is None:
+                r = len(r)
+        elif k in ("alb", "ext"):
+            key = (k, c[1], c[2])
+            buf = _HIST_KEEP.get(key)
+            if buf is None:   # the caller keeps its buffer between calls, as a loop over one working buffer does
+                raw = bytes(range(1, c[2] + 1))
+                buf = _HIST_KEEP[key] = bytearray(raw) if c[1] == "bytearray" else raw
+            before = bytes(buf)
+            out = misc.align_block(buf, c[3], c[4]) if k == "alb" else misc.extend_block(buf, c[3], c[4])
+            r = [bytes(out).hex(), "caller-buffer-changed" if bytes(buf) != before else "kept"]
+        elif k == "align":
+            r = misc.align(c[1], c[2])
+        elif k == "cnt":
+            r = misc.get_bytes_cnt_of_int(c[1], align_to_2n=c[2])
+        elif k == "rng":
+            r = misc.check_range(c[1], c[2], c[3])
+        elif k == "rev":
+            r = misc.reverse_bits(c[1], c[2])
+        elif k == "sw32":
+            r = misc.swap32(int(c[1], 16))
+        elif k == "chg":
+            r = misc.change_endianness(bytes.fromhex(c[1])).hex()
+        else:
+            raise AssertionError(c)
+        return ["ok", r]
+    except SPSDKError:
+        return ["SPSDKError"]
+    except Exception as e:  # noqa
+        return [type(e).__name__]
+
+
+def _in_fork(fn):
+    """Run fn() in a forked child and return its JSON result: whatever state the calls leave behind (module-level caches in
+    any module) dies with the child, so every history starts from the state of this worker, in which no helper has run."""
+    import json
+    import os
+
+    r, w = os.pipe()
+    pid = os.fork()
+    if pid == 0:
+        try:
+            os.close(r)
+            out = json.dumps(fn()).encode()
+            os.write(w, out)
+        finally:
+            os._exit(0)
+    os.close(w)
+    buf = b""
+    while True:
+        ch = os.read(r, 65536)
+        if not ch:
+            break
+        buf += ch
+    os.close(r)
+    os.waitpid(pid, 0)
+    return json.loads(buf) if buf else None
+
+
+def w_hist(task: Any) -> dict:
+    """task = (tier, index of the first call[, index of the second call for depth 3]); all histories first.. + one more call."""
+    tier, pre = task[0], list(task[1:])
+    calls = hist_alphabet(tier)
+
+    # reference: every call alone in a fresh state (one fork per call), computed once per worker
+    if tier not in _HIST_REFS:
+        _HIST_REFS[tier] = [_in_fork(lambda c=c: (_HIST_KEEP.clear(), hist_call(tuple(c)))[1]) for c in calls]
+    refs = _HIST_REFS[tier]
+    viol = []
+    n = 0
+    for j, c2 in enumerate(calls):
+        def body(c2=c2):
+            _HIST_KEEP.clear()
+            for i in pre:
+                hist_call(tuple(calls[i]))
+            return hist_call(tuple(c2))
+        got = _in_fork(body)
+        n += 1
+        if got != refs[j]:
+            fam = lambda c: c[0]   # noqa
+            same_text = any(calls[i][0] in ("vti", "vtb", "pat") and c2[0] in ("vti", "vtb", "pat") and calls[i][1] == c2[1] for i in pre)
+            disc = f"{'+'.join(fam(calls[i]) for i in pre)}->{fam(c2)}" + (":same-text" if same_text else "") + \
+                   (":caller-buffer" if c2[0] in ("alb", "ext") else "")
+            viol.append(("C20.history-independence", disc, f"after {[calls[i] for i in pre]} the call {c2} answers {got}, alone in a fresh process it answers {refs[j]}"))
+    return {"viol": core.dedupe(viol), "count": {"history_cases": n}, "distinct": []}
+
+
 def run(ctx: core.Ctx) -> None:
     L = 5 if ctx.tier == "quick" else 7
     ctx.rule = (f"value_to_int: every string of length <= {L} over the 18-symbol alphabet {ALPHABET!r} vs. an own "
@@ -526,6 +666,17 @@ def run(ctx: core.Ctx) -> None:
                                   timeout=600, chunksize=1, check_det=2):
         if ctx.absorb(case, res):
             nontriv += sum(res["count"].values())
+    nalpha = len(hist_alphabet(ctx.tier))
+    htasks = [(ctx.tier, i) for i in range(nalpha)]
+    if ctx.tier != "quick":   # depth 3 with the first two calls from the number-text family
+        fam = [i for i, c in enumerate(hist_alphabet(ctx.tier)) if c[0] in ("vti", "vtb", "pat") and c[1] in ("0x10", "four", "0X10", " 0x10")]
+        htasks += [(ctx.tier, i, j) for i in fam for j in fam]
+    for case, res in ctx.pool_map(w_hist, htasks, timeout=600, chunksize=1, check_det=1):
+        if ctx.absorb(list(case), res):
+            nontriv += res["count"]["history_cases"]
+    ctx.cov["call_histories"] = {"alphabet": nalpha, "depth": 2 if ctx.tier == "quick" else 3, "histories": ctx.counters.get("history_cases", 0),
+                                 "isolation": "every history in its own forked child; reference = the call alone in a forked child"}
+    ctx.sample({"call_history": [list(hist_alphabet(ctx.tier)[0]), list(hist_alphabet(ctx.tier)[1])]})
     ctx.sample({"align": [[-2, -2], [300, 64]], "check_range_cube": [-2, 10]})
     ctx.cov["distinct_nontrivial"] = nontriv
     ctx.cov["evaluations"] = sum(v for k, v in ctx.counters.items() if k.endswith("_cases") or k == "strings")
@@ -545,6 +696,8 @@ def replay(ctx: core.Ctx, rec: dict) -> bool:
         if res.get("__watchdog__"):
             print("watchdog: does not terminate")
             return True
+    elif clause == "C20.history-independence":
+        res = w_hist(tuple(case))
     elif isinstance(case, str):
         res = w_misc(case)
     else:
